@@ -15,6 +15,7 @@ UNIT_MAP = {
     'hash_map': ['hash_map', 'cao_lang_table'],
     'cao_lang_table': ['cao_lang_table'],
     'object_laws': ['object_laws'],
+    'frames': ['closure_capture'],
     'names': ['name_resolution'],
     'error_trace': ['error_trace'],
     'emission': ['decode_walk'],
